@@ -37,7 +37,7 @@ REAL, STUBBED = C.REAL, C.STUBBED
 
 
 def budget(tier):
-    return dict(nights=200, wall_s=170) if tier == "quick" else dict(nights=12000, wall_s=2400)
+    return dict(nights=600, wall_s=240) if tier == "quick" else dict(nights=12000, wall_s=2400)
 
 
 WORLD = dict(offices=["G", "S", "H"], unit_types=["precinct", "precinct", "county"], n_states=(1, 3), n_counties=(2, 7), n_units=(2, 9), zero_baseline_frac=0.02)
